@@ -32,6 +32,18 @@ pub fn large(v: &mut Vec<(String, String, String)>, facts: &mut Vec<(String, i12
     for i in (0..N).step_by(997).chain([65535usize, 65536, 65537, 131071, 131072, N - 1]) {
         check_one(&mut w, i, true, v);
     }
+    // direct handles at large dense indices designate their own entity
+    for i in [0usize, 255, 256, 65535, 65536, 65537, 70000, 131071, 131072, 200_000, N - 1] {
+        let e = hs[i];
+        let d = w.to_direct(e).unwrap();
+        let da = w.arch_q.to_direct(e.into_any()).unwrap();
+        let g1 = ecs_find!(w, d, |x: &Entity<ArchQ>, a: &CompA| (*x, a.obs().payload));
+        let g2 = ecs_find_borrow!(w, da, |x: &Entity<ArchQ>, a: &CompA| (*x, a.obs().payload));
+        let g3 = w.arch_q.resolve(d).map(|idx| w.arch_q.entities()[idx]);
+        if g1 != Some((e, pa(i))) || g2 != Some((e, pa(i))) || g3 != Some(e) {
+            fail(v, "C09", "fresh-direct-designates-other", format!("direct handle of entity #{} ({:?}) reaches {:?} / {:?} / {:?}", i, e, g1, g2, g3));
+        }
+    }
     // scattered removals through all key kinds
     let mut removed = 0usize;
     let mut i = 3usize;
